@@ -102,11 +102,20 @@ def judge(types_list):
     equal_len = all(
         len({r.np_arrays[k].size for r in rs}) == 1 for k in akeys[0])
     for k in akeys[0]:
+        same_k = len({r.np_arrays[k].size for r in rs}) == 1
         if equal_len:
             exp = sum(r.np_arrays[k] for r in rs) / n
         else:
             exp = np.concatenate([r.np_arrays[k] for r in rs])
         got = np.asarray(m.np_arrays[k])
+        if not equal_len and same_k:
+            # this array has equal lengths but another one does not: the
+            # statement can be read per array or for the result as a whole;
+            # the element-wise mean is accepted as well
+            alt = sum(r.np_arrays[k] for r in rs) / n
+            if got.shape == alt.shape and (not alt.size or np.abs(
+                    got - alt).max() <= 1e-9):
+                continue
         if got.shape != exp.shape or (exp.size and
                                       np.abs(got - exp).max() > 1e-9):
             msgs.append("array %s: expected %s of the inputs %s, got %s" %
